@@ -496,7 +496,7 @@ def _seed_forms(fn):
     return run
 
 
-def F(name, fn, strat, q=500, t=6000, np_seed=True, omit_seed=False):
+def F(name, fn, strat, q=500, t=6000, np_seed=True, omit_seed=False, sh=1):
     # (KDRandomClassWrapper seeds a torch generator, which rejects numpy integers with a TypeError - a clean refusal, not generated)
     if getattr(fn, "__name__", "") != "run":
         # an exception raised inside the library for a generated, accepted configuration is a violation, not a harness error
@@ -506,7 +506,7 @@ def F(name, fn, strat, q=500, t=6000, np_seed=True, omit_seed=False):
         strat = strat.flatmap(lambda s: st.sampled_from(forms).map(lambda f: dict(s, seed_form=f)) if "seed" in s else st.just(s))
         fn = _seed_forms(fn)
     return Facet(name, fn, strategy=lambda tier, s=strat: s, budget={"quick": q, "thorough": t},
-                 shards={"quick": 1, "thorough": 4}, min_nontrivial={"quick": q // 12, "thorough": t // 12}, case_timeout=60)
+                 shards={"quick": sh, "thorough": 4}, min_nontrivial={"quick": q // 12, "thorough": t // 12}, case_timeout=60)
 
 
 S_RECONF = L(st.fixed_dictionaries({"nc1": st.integers(2, 6), "nc2": st.integers(2, 9), "seed": SEED, "enc": st.sampled_from(["smooth", "onehot"]),
@@ -515,7 +515,7 @@ S_STACKED = L(st.fixed_dictionaries({"chain": st.lists(st.fixed_dictionaries({
     "k": st.sampled_from(["groups", "super", "swap", "semi", "allgather", "overwrite"]), "a": st.integers(0, 50)}), min_size=2, max_size=3)}))
 
 FACETS = [
-    F("stacked-wrappers", check_stacked, S_STACKED, q=600, t=8000),
+    F("stacked-wrappers", check_stacked, S_STACKED, q=2400, t=12000, sh=4),
     F("encoding-follows-class-count", guarded("encoding-follows-class-count", check_encoding_follows_class_count), S_RECONF, q=200, t=2000, np_seed=False),
     F("class-groups", check_class_groups, S_GROUPS, omit_seed=True),
     F("random-superclass", check_random_superclass, S_SUPER),
